@@ -563,11 +563,14 @@ def part_dyne_spec(ctx, pq, quick, rng, pid="C02"):
     """PqDyne: exact sampling law AND exact conditional state of heterodyne / general-dyne on ordered mode tuples"""
     from .. import dyne_replay as DY
     d = 3
-    gates = L.gaussian_catalogue(d, rng=rng, size=5 if quick else 8)
+    cat = L.gaussian_catalogue(d)
+    sq2 = [g for g in cat if g["name"].startswith("Squeezing2")]
+    # always two two-mode squeezers (measured modes entangled with the unmeasured one), the rest at random
+    gates = rng.sample(sq2, 2) + rng.sample([g for g in cat if not g["name"].startswith("Squeezing2")], 3 if quick else 6)
     modes = [(0,), (2, 0), (0, 2), (1, 2), (2, 1)]
     dets = ["heterodyne", "generaldyne(2,1/2)"] if quick else list(DY.DETCOVS)
     recs = DY.explore(ctx, d, gates, 1 if quick else 2, modes, dets)
-    n = DY.replay(ctx, pq, pid, d, gates, recs, rng, per_state=8 if quick else None)
+    n = DY.replay(ctx, pq, pid, d, gates, recs, rng)
     ctx.notes.setdefault("dyne_spec", {"states": 0, "cases": 0})
     ctx.notes["dyne_spec"]["states"] += len(recs)
     ctx.notes["dyne_spec"]["cases"] += n
